@@ -4,7 +4,7 @@ check (and counted).  All randomness comes from the `random.Random` passed in.""
 
 PRELUDE = '''from guppylang import guppy
 from guppylang.std.builtins import owned, array
-from guppylang.std.quantum import qubit, discard, h, x, cx, measure
+from guppylang.std.quantum import qubit, discard, h, x, cx, project_z, reset
 
 
 @guppy.struct
@@ -102,6 +102,10 @@ class Gen:
     def lin_of(self, kind):
         return [n for n, k in self.lin.items() if k == kind]
 
+    def owned_of(self, kind):
+        pool = [n for n in self.lin_of(kind) if n not in self.borrowed]
+        return self.r.choice(pool) if pool else None
+
     # ---- expressions --------------------------------------------------------------------
     def int_expr(self, d=0):
         r = self.r
@@ -186,7 +190,8 @@ class Gen:
                 out.add(f"discard({name})")
             else:
                 b = self.pick_name("b")
-                out.add(f"{b} = measure({name})")
+                out.add(f"{b} = project_z({name})")
+                out.add(f"discard({name})")
                 self.defs[b] = "b"
         elif kind == "s":
             if r.random() < 0.5:
@@ -324,8 +329,10 @@ class Gen:
         elif o == "meas":
             q = r.choice(self.lin_of("q"))
             b = self.pick_name("b")
-            out.add(f"{b} = measure({q})")
-            out.add(f"{q} = qubit()")
+            out.add(f"{b} = project_z({q})")
+            if q not in self.borrowed and r.random() < 0.6:
+                out.add(f"discard({q})")
+                out.add(f"{q} = qubit()")
             self.defs[b] = "b"
         elif o == "mk_s":
             e = self.s_expr()
@@ -338,24 +345,33 @@ class Gen:
         elif o == "s_bor":
             out.add(f"bor_s({r.choice(self.lin_of('s'))})")
         elif o == "s_own":
-            s = r.choice(self.lin_of("s"))
+            s = self.owned_of("s")
+            if s is None:
+                return
             out.add(f"{s} = own_s({s})")
         elif o == "s_field_swap":
-            s = r.choice(self.lin_of("s"))
+            s = self.owned_of("s")
+            if s is None:
+                return
             b = self.pick_name("b")
-            out.add(f"{b} = measure({s}.q)")
+            out.add(f"{b} = project_z({s}.q)")
+            out.add(f"discard({s}.q)")
             out.add(f"{s}.q = qubit()")
             self.defs[b] = "b"
             self.features.add("field_assign")
         elif o == "s_rebuild":
-            s = r.choice(self.lin_of("s"))
+            s = self.owned_of("s")
+            if s is None:
+                return
             i = self.pick_name("i")
             out.add(f"{i} = use_s({s})")
             out.add(f"{s} = S(qubit(), {i})")
             self.defs[i] = "i"
         elif o == "s_refill":
             # move the whole struct out, then give it a new qubit through the field
-            s = r.choice(self.lin_of("s"))
+            s = self.owned_of("s")
+            if s is None:
+                return
             i = self.pick_name("i")
             out.add(f"{i} = use_s({s})")
             out.add(f"{s}.q = qubit()")
@@ -389,7 +405,9 @@ class Gen:
             out.add(f"{i} = bor_n({r.choice(self.lin_of('n'))})")
             self.defs[i] = "i"
         elif o == "n_sub_own":
-            n = r.choice(self.lin_of("n"))
+            n = self.owned_of("n")
+            if n is None:
+                return
             out.add(f"{n}.s = own_s({n}.s)")
             self.features.add("field_assign")
         elif o == "n_sub_bor":
